@@ -165,7 +165,7 @@ func (g *gctx) node(depth int) *Node {
 		if g.f.CapBias {
 			choices = append(choices, "cap", "cap", "capor", "caploop")
 			if g.f.NamedLoops && g.inSub == "" {
-				choices = append(choices, "namednest")
+				choices = append(choices, "namednest", "namedwrap")
 			}
 		}
 	}
@@ -270,6 +270,15 @@ func (g *gctx) node(depth int) *Node {
 		outer := &Node{K: KLoop, Min: 0, Max: rapid.SampledFrom([]int{-1, 2, 3}).Draw(g.t, "nnomax"), Fewest: rapid.IntRange(0, 3).Draw(g.t, "nnofew") == 0, Name: g.name("L"),
 			Body: &Node{K: KSeq, Kids: []*Node{inner, opt, tail}}}
 		return outer
+	case "namedwrap":
+		// a named loop around unnamed loops around a capture: the capture is written
+		// into the named loop's table, which is not the innermost loop on the stack
+		g.inNamed++
+		capn := &Node{K: KCap, S: g.name("v"), Body: &Node{K: KSeq, Kids: []*Node{g.consuming(), g.atom()}}}
+		innermost := &Node{K: KLoop, Min: 0, Max: rapid.SampledFrom([]int{-1, 1, 2}).Draw(g.t, "nwimax"), Fewest: rapid.IntRange(0, 3).Draw(g.t, "nwifew") == 0, Body: capn}
+		middle := &Node{K: KLoop, Min: 0, Max: rapid.SampledFrom([]int{-1, 2}).Draw(g.t, "nwmmax"), Body: &Node{K: KSeq, Kids: []*Node{innermost, g.consuming()}}}
+		g.inNamed--
+		return &Node{K: KLoop, Min: 0, Max: rapid.SampledFrom([]int{-1, 3}).Draw(g.t, "nwomax"), Name: g.name("L"), Body: middle}
 	case "sub":
 		name := g.name("s")
 		n := &Node{K: KSub, S: name}
